@@ -418,7 +418,12 @@ func report(prop, tier string, seed uint64, pi propInfo, lines []line, start tim
 		reported[sig] = true
 		final := l.Replay
 		if final != "" {
-			keep := filepath.Join(verifDir, "replays", filepath.Base(l.Replay))
+			rdir := filepath.Join(verifDir, "replays")
+			if d := os.Getenv("VERIF_REPLAY_DIR"); d != "" {
+				rdir = d
+				os.MkdirAll(rdir, 0755)
+			}
+			keep := filepath.Join(rdir, filepath.Base(l.Replay))
 			min := strings.TrimSuffix(keep, ".json") + ".min.json"
 			os.Rename(l.Replay, keep)
 			final = keep
@@ -477,8 +482,12 @@ func report(prop, tier string, seed uint64, pi propInfo, lines []line, start tim
 		"violations":  len(fresh),
 	}
 	b, _ := json.MarshalIndent(ev, "", " ")
-	os.MkdirAll(filepath.Join(verifDir, "evidence"), 0755)
-	if err := os.WriteFile(filepath.Join(verifDir, "evidence", prop+".json"), b, 0644); err != nil {
+	evdir := filepath.Join(verifDir, "evidence")
+	if d := os.Getenv("VERIF_EVIDENCE_DIR"); d != "" {
+		evdir = d // background sweeps must not overwrite the registered evidence
+	}
+	os.MkdirAll(evdir, 0755)
+	if err := os.WriteFile(filepath.Join(evdir, prop+".json"), b, 0644); err != nil {
 		die(2, "cannot write evidence: %v", err)
 	}
 	fmt.Printf("check: %d runs, %d distinct non-trivial, %d scheduling points, %d violations (%d known), %.1fs\n",
